@@ -12,7 +12,7 @@ import (
 
 var iterCounter int
 
-func (x *Exec) newIterator(st *State, fam *Family, prefix []*Term, reverse bool) Val {
+func (x *Exec) newIterator(st *State, fam *Family, prefix []*Term, reverse bool, sel ...*KeyVal) Val {
 	iterCounter++
 	id := iterCounter
 	snap := st.world.get(fam.Name)
@@ -21,12 +21,22 @@ func (x *Exec) newIterator(st *State, fam *Family, prefix []*Term, reverse bool)
 	pos := fmt.Sprintf("it%d_pos", id)
 	st.assume(Ge(n, IntLit(0)))
 	st.assume(Le(n, BigLit(new(big.Int).Lsh(big.NewInt(1), 62))))
+	var ppos []int
+	var by []string
+	if len(sel) > 0 && sel[0] != nil {
+		ppos, by = sel[0].Pos, sel[0].By
+	}
 	match := func(k *Term) *Term {
 		var cs []*Term
 		for i, p := range prefix {
-			if len(fam.KeySorts) == 1 {
+			switch {
+			case by != nil:
+				cs = append(cs, Eq(UF(by[i], p.Sort, k), p))
+			case len(fam.KeySorts) == 1:
 				cs = append(cs, Eq(k, p))
-			} else {
+			case ppos != nil:
+				cs = append(cs, Eq(SelField(k, ppos[i]), p))
+			default:
 				cs = append(cs, Eq(SelField(k, i), p))
 			}
 		}
@@ -115,7 +125,8 @@ func init() {
 				x.assumed["opaque iterator over an undeclared key prefix at "+c.Pos+": elements unconstrained"] = true
 				return &OpaqueVal{Name: "iterator"}
 			}
-			return x.newIterator(st, fam, prefix, reverse)
+			kvSel, _ := c.Args[1].(*KeyVal)
+			return x.newIterator(st, fam, prefix, reverse, kvSel)
 		}
 	}
 	theory["cosmossdk.io/store/types.KVStorePrefixIterator"] = mkIter(false)
